@@ -183,6 +183,42 @@ def run(ctx):
             lines.append("nprop"); expect.append("ok " + ("-" if prop is None else enc(prop)))
             ctx.count("op", op)
         ctx.case(("hist", h, n, init))
+    # ---- every short schedule of {lookup by name, rename, property write, read} on one waveform: after each step every name a signal
+    #      carries is found at that signal (first one wins) and every other name is refused with IndexError -------------------------------
+    import itertools as _it
+    steps = ("lookup-old", "lookup-new", "rename-clean", "rename-spaced", "rename-comma", "prop-write", "read-all")
+    n_sched = 0
+    for n in (1, 2, 3):
+        for sched in _it.product(steps, repeat=3):
+            if not any(x.startswith("rename") or x == "prop-write" for x in sched) or not any(x.startswith("lookup") for x in sched):
+                continue
+            w = DigitalWaveform(2, n, extended_properties={LN: ", ".join(f"o{j}" for j in range(n))})
+            target = n - 1
+            for k, st in enumerate(sched):
+                if st == "lookup-old": outcome(lambda: w.signals["o0"])
+                elif st == "lookup-new": outcome(lambda: w.signals[f"N{k - 1}"])
+                elif st == "rename-clean": w.signals[target].name = f"N{k}"
+                elif st == "rename-spaced": w.signals[target].name = f" N{k} "
+                elif st == "rename-comma": w.signals[0].name = f"N{k},x"
+                elif st == "prop-write": w.extended_properties[LN] = ", ".join(f"N{k}" if j == 0 else f"p{j}" for j in range(n))
+                else: [w.signals[j].name for j in range(n)]
+                names_now = [w.signals[j].name for j in range(n)]
+                for cand in sorted(set(names_now) | {"o0", f"o{n - 1}", f"N{k}", f"N{k - 1}", "zz"}):
+                    o = outcome(lambda: w.signals[cand])
+                    want = names_now.index(cand) if cand in names_now else None
+                    got = o[1].signal_index if o[0] == "ok" else None
+                    if got != want or (o[0] == "err" and o[1] != "IndexError") or (o[0] == "ok" and o[1].name != cand):
+                        ctx.violation(what="signals[name] after a schedule of lookups and renames", signals=n, schedule=list(sched[:k + 1]), name=cand, names=names_now,
+                                      observed=(f"signal {got} named {o[1].name!r}" if o[0] == "ok" else show(o)), required=(f"signal {want}" if want is not None else "IndexError"))
+                        break
+                else:
+                    if not check(w, f"schedule {sched[:k + 1]}"):
+                        break
+                    continue
+                break
+            n_sched += 1
+            ctx.case(("schedule", n, sched))
+    ctx.extra["lookup_rename_schedules"] = n_sched
     # ---- several waveforms sharing one extended-property dictionary (copy.copy, copy_extended_properties=False), some of
     # them garbage-collected in between: every live waveform must follow every change of NI_LineNames -------------------
     import gc
